@@ -22,3 +22,8 @@ pub fn install() {
         log::set_max_level(log::LevelFilter::Trace);
     }
 }
+
+/// Whether `install` has been called in this process.
+pub fn installed() -> bool {
+    log::max_level() == log::LevelFilter::Trace
+}
